@@ -67,6 +67,17 @@ class Hub:
                 for f in v.get('fields', []):
                     if isinstance(f, dict) and re.match(r'^std::option::Option<std::path::PathBuf>$', str(f.get('ty', '')).replace(' ', '')):
                         self.optional_staging = '%s.%s' % (name.split('::')[-1], f.get('name'))
+        # the same limit one step further: the final path AND the staging path of a Put kept together in a struct of the module
+        # (`Landing { dst, tmp, file }`): the handlers then name their paths as fields of that value, whose provenance the
+        # per-call path classes do not follow - the rules that say "not decided" for the Option form say it here too
+        if self.optional_staging is None:
+            for name, adt in F.adts.items():
+                if adt.get('crate') != 'bin' or not str(adt.get('file', '')).endswith('serve.rs'):
+                    continue
+                for v in adt.get('variants', []):
+                    pf = [f.get('name') for f in v.get('fields', []) if isinstance(f, dict) and str(f.get('ty', '')).replace(' ', '') == 'std::path::PathBuf']
+                    if len(pf) >= 2:
+                        self.optional_staging = '%s.{%s}: paths kept in a struct' % (name.split('::')[-1], ', '.join(pf))
         runners = dict(semantic_anchors.lock_runners(F))
         runners.setdefault(LOCK, 1)
         self.lock_runners = runners
